@@ -25,6 +25,7 @@ type histParams struct {
 	Late        bool // a second driver sends a late message after quiescence (probe)
 	WaitCtx     bool // drivers wait on every stop context
 	Bystander   bool
+	StopPanics  bool   // the receiver panics (once) while handling Stopped
 	LC          string // lifecycle handlers that panic once: comma separated "<incarnation><I|S>", e.g. "2S" = Started of incarnation 2
 }
 
@@ -46,6 +47,9 @@ func (hp histParams) String() string {
 	if hp.LC != "" {
 		lc = "lc" + hp.LC
 	}
+	if hp.StopPanics {
+		lc += "stoppanics"
+	}
 	return fmt.Sprintf("%s_r%dd%dmode%dmw%d%s", hp.Hist, hp.MaxRestarts, d, hp.Mode, hp.NMW, lc)
 }
 
@@ -65,6 +69,7 @@ type histRun struct {
 	startedAtSpawnRet bool
 	issued   bool
 	lcDone   map[string]bool
+	stopPaniced bool
 }
 
 func (h *histRun) issue(i int, e *actor.Engine) {
@@ -112,6 +117,11 @@ func (h *histRun) behave(k *Kit, c *actor.Context, inc int) {
 			for i := range h.hp.Hist {
 				h.issue(i, c.Engine())
 			}
+		}
+	case actor.Stopped:
+		if h.hp.StopPanics && !h.stopPaniced {
+			h.stopPaniced = true
+			panic("in the Stopped handler")
 		}
 	case int:
 		if m >= 0 && m < len(h.hp.Hist) {
@@ -217,6 +227,7 @@ type histRef struct {
 	termIdx     int
 	exhausted   bool
 	incOf       map[int]int // incarnation that must receive message i
+	neverStarted bool       // the budget ran out in lifecycle handlers before any incarnation handled Started successfully
 }
 
 func refHistory(hist string, maxRestarts int) histRef { return refHistoryLC(histParams{Hist: hist, MaxRestarts: maxRestarts}) }
@@ -250,6 +261,7 @@ func refHistoryLC(hp histParams) histRef {
 		}
 	}
 	startInc(0)
+	ref.neverStarted = ref.terminal != 0
 	for i := 0; i < len(hist); i++ {
 		c := hist[i]
 		if ref.terminal != 0 {
@@ -366,7 +378,7 @@ func histOracle(h *histRun, r *vsched.Result) []vsched.Violation {
 		}
 	}
 	vs = append(vs, lifecycleShape(k, "A", ended)...)
-	if !h.startedAtSpawnRet {
+	if !h.startedAtSpawnRet && !ref.neverStarted {
 		vs = append(vs, V("lifecycle/spawn-returned-before-started", "Spawn returned but Started had not been handled"))
 	}
 	// deliveries of user messages
@@ -639,7 +651,17 @@ func init() {
 				}
 			}
 		}
-		vq, vt = vq, vt
+		// the budget-exhausting panic is raised by a lifecycle handler (Started / Initialized), at the
+		// initial spawn (on the spawning goroutine) or after a restart (on the worker)
+		for _, lc := range []struct {
+			r  int
+			lc string
+			h  string
+		}{{0, "1S", "m"}, {0, "1I", "m"}, {1, "1S,2S", "m"}, {1, "2S", "Xm"}, {1, "2I", "mXm"}, {2, "2S,3S", "Xmm"}} {
+			p := histParams{Hist: lc.h, MaxRestarts: lc.r, Mode: mode, Late: true, Bystander: true, LC: lc.lc}
+			vq = append(vq, p)
+			vt = append(vt, p)
+		}
 		Register(&Job{Name: fmt.Sprintf("C06/hist/exhaust-mode%d", mode), Prop: "C06", Bound: 1, BoundT: 2, Budget: 40, BudgetT: 600,
 			Desc: fmt.Sprintf("%d histories over {m,X} with exactly MaxRestarts+1 crashes (MaxRestarts 0..2), late probe send, bystander, mode %d", len(vq), mode),
 			Make: func() vsched.Instance { return histInstance(vq, histOracle) }})
@@ -665,6 +687,13 @@ func init() {
 		Register(&Job{Name: fmt.Sprintf("C07/hist/crash-then-stop-mode%d", mode), Prop: "C07", Bound: 1, BoundT: 2, Budget: 40, BudgetT: 600,
 			Desc: fmt.Sprintf("%d histories over {m,x,P,S} of length<=4 with one crash and one stop request, the crash in front of the request or behind a non-graceful Stop", len(crashClean)),
 			Make: func() vsched.Instance { return histInstance(crashClean, histOracle) }})
+		var stopPanics []histParams
+		for _, hs := range []string{"P", "mP", "S", "mS", "mPm"} {
+			stopPanics = append(stopPanics, histParams{Hist: hs, MaxRestarts: 3, Mode: mode, Late: true, StopPanics: true})
+		}
+		Register(&Job{Name: fmt.Sprintf("C07/hist/stopped-handler-panics-mode%d", mode), Prop: "C07", Bound: 1, BoundT: 2, Budget: 40, BudgetT: 600,
+			Desc: fmt.Sprintf("%d histories with one stop request in which the receiver panics while handling the Stopped of that request: the context still becomes done, the actor is gone, no new incarnation", len(stopPanics)),
+			Make: func() vsched.Instance { return histInstance(stopPanics, histOracle) }})
 		var behindEx []histParams
 		for _, r := range []int{0, 1} {
 			for _, h := range allHists("mXPS", 3, func(h string) bool { return countAny(h, "PS") == 1 && stopBehindExhaustion(h, r) }) {
@@ -695,6 +724,10 @@ func init() {
 					vt = append(vt, histParams{Hist: h, MaxRestarts: r, Mode: mode, Late: true, Delay: r == 1})
 				}
 			}
+		}
+		for _, hs := range []string{"mxm", "xmm", "mxP", "xmS", "mXm"} {
+			vq = append(vq, histParams{Hist: hs, MaxRestarts: 2, Mode: mode, Late: true, NMW: 1})
+			vt = append(vt, histParams{Hist: hs, MaxRestarts: 2, Mode: mode, Late: true, NMW: 2})
 		}
 		Register(&Job{Name: fmt.Sprintf("C04/hist/mixed-len3-mode%d", mode), Prop: "C04", Bound: 1, BoundT: 2, Budget: 40, BudgetT: 600,
 			Desc: fmt.Sprintf("%d (history, MaxRestarts 0..2) pairs: all histories over {m,x,X,P,S} of length<=3 with at most one stop request and no crash behind a graceful pill; per-incarnation protocol, exactly-once, order, final registry state, late probe", len(vq)),
